@@ -1,4 +1,28 @@
+/-
+  Locality of the block parser, lists included (C05, prefix half at full strength).
+
+  `Proofs/Locality.lean` proves that the blocks of `A` do not depend on what follows a blank line
+  after `A` under the restriction that no top-level block of `A` is a list (`tokenizeBlock_prefix`).
+  This file removes the restriction (`tokenizeBlock_prefix_lists`): a list that is not the last
+  block of `A` is read identically on `A ++ "\n" :: rest`.
+
+  * `ListItem.read` (`itemLines`: `skipBlanks`, `itemLoop`) looks at the end of its buffer only when
+    it returns without a next marker and leaves no line that is not whitespace-only at or after
+    the cursor (`itemLoop_ext`, `itemLines_ext`); the nested `tokenize_block` runs on the lines it
+    collected, a buffer of its own.
+  * `List.read` (`readList`) therefore either runs identically on the extended buffer or returns a
+    cursor behind which only whitespace-only lines remain (`extList_all`).  This uses the repaired
+    `List.read`, which tests the next marker BEFORE reading its item (`otherMarkerType`): the former
+    one read the item behind a marker of another type and discarded it, and that read could run to
+    the end of `A` — on the longer buffer it ran on into `rest` and kept the link reference
+    definitions it found there (counterexamples for the former behaviour: `C05.former_counterexample_*`).
+  * a block of a closed kind (paragraph, setext/ATX heading, thematic break, quote, table) starts on
+    a line that is not whitespace-only (`tryTypes_closed_nonblank`), so a list followed by blocks the
+    last of which is closed has such a line behind it (`tokLoop_closed_nbl`).
+-/
 import Mistletoe.Proofs.Locality
+import Mistletoe.Proofs.BlockTotal
+import Mistletoe.Props.C05
 namespace Mistletoe.Block
 open Mistletoe Mistletoe.Py Mistletoe.Scan
 
@@ -199,32 +223,6 @@ theorem itemLoop_ext (cfg : Cfg) (prepend : Nat) (nl0 : Line) (rest : List Line)
                   · exact hinv q l' (by omega) (by omega) hl'
                 · omega
 
-/-- a next marker is the marker of the line the cursor stands on -/
-theorem itemLoop_next (cfg : Cfg) (prepend : Nat) : ∀ (f : Nat) (a : FW) (buf : List Line) (nl : Nat) (r) (m),
-    itemLoop cfg prepend f a buf nl = .ok r → r.2.2 = some m → ∃ l, r.2.1.peek = some l ∧ parseMarker l.s = some m
-  | 0, _, _, _, _, _, h, _ => by simp [itemLoop] at h
-  | f + 1, a, buf, nl, r, m, h, hm => by
-    simp only [itemLoop] at h
-    split at h
-    · cases h; cases hm
-    · rename_i l hp
-      split at h
-      · split at h
-        · cases h
-        · exact itemLoop_next cfg prepend f _ _ _ r m h hm
-      · split at h
-        · cases h
-        · cases h; cases hm
-        · split at h
-          · rename_i m' hm'
-            cases h
-            simp only [Option.some.injEq] at hm
-            subst hm
-            exact ⟨l, hp, hm'⟩
-          · split at h
-            · cases h; cases hm
-            · exact itemLoop_next cfg prepend f _ _ _ r m h hm
-
 theorem itemLoop_posLe (cfg : Cfg) (prepend : Nat) : ∀ (f : Nat) (a : FW) (buf : List Line) (nl : Nat) (r) (p0 : Nat),
     p0 ≤ a.pos → (0 < nl → p0 < a.pos) → itemLoop cfg prepend f a buf nl = .ok r → p0 ≤ r.2.1.pos
   | 0, _, _, _, _, _, _, _, h => by simp [itemLoop] at h
@@ -277,10 +275,6 @@ def ItemLines.ext (post : List Line) : ItemLines → ItemLines
   | .empty i p ld ln og nx fw => .empty i p ld ln og nx (fw.ext post)
   | .lines buf cs i p ld ln og nx fw => .lines buf cs i p ld ln og nx (fw.ext post)
 
-def ItemLines.next : ItemLines → Option (Nat × Nat × Str × Str)
-  | .empty _ _ _ _ _ nx _ => nx
-  | .lines _ _ _ _ _ _ _ nx _ => nx
-
 theorem itemLines_ext_cursor (post : List Line) (il : ItemLines) : (il.ext post).cursor = il.cursor.ext post := by
   cases il <;> rfl
 
@@ -330,7 +324,7 @@ theorem itemLines_ext (cfg : Cfg) (nl0 : Line) (rest : List Line) (hnl0 : nl0.s 
                 · cases hn : next with
                   | none => exact absurd hn hg
                   | some m =>
-                    obtain ⟨l, hl, _⟩ := itemLoop_next cfg _ _ _ _ _ _ m heq hn
+                    obtain ⟨l, hl, _⟩ := itemLoop_next_marker cfg _ _ _ _ _ _ heq m hn
                     exact peek_some_lt _ l hl
                 · exact nbl_lt _ hg
               rw [hs3, hsk.1.1] at this
@@ -381,100 +375,32 @@ theorem itemLines_ext (cfg : Cfg) (nl0 : Line) (rest : List Line) (hnl0 : nl0.s 
           rw [hile]
           simp only [ItemLines.ext]
 
-theorem itemLines_next (cfg : Cfg) (a : FW) (prev) (il : ItemLines) (h : itemLines cfg a prev = .ok il) (m)
-    (hm : il.next = some m) : ∃ l, il.cursor.peek = some l ∧ parseMarker l.s = some m := by
-  unfold itemLines at h
-  split at h
-  · cases h
-  · simp only at h
-    split at h
-    · cases h
-    · split at h
-      · split at h
-        · cases h
-          simp only [ItemLines.next, ItemLines.cursor] at hm ⊢
-          split at hm
-          · rename_i l hl; exact ⟨l, hl, hm⟩
-          · cases hm
-        · split at h
-          · cases h
-          · rename_i buf fw3 next heq
-            cases h
-            exact itemLoop_next cfg _ _ _ _ _ _ m heq hm
-      · split at h
-        · cases h
-        · rename_i buf fw3 next heq
-          cases h
-          exact itemLoop_next cfg _ _ _ _ _ _ m heq hm
 
-theorem itemLines_pos (cfg : Cfg) (a : FW) (prev) (il : ItemLines) (h : itemLines cfg a prev = .ok il) : a.pos ≤ il.cursor.pos := by
-  have hsk := (skipBlanks_inv (a.remaining + 1) a.next 1).2.1
-  have hnp : a.next.pos = a.pos + 1 := rfl
-  unfold itemLines at h
-  split at h
-  · cases h
-  · simp only at h
-    split at h
-    · cases h
-    · split at h
-      · split at h
-        · cases h; simp only [ItemLines.cursor]; omega
-        · split at h
-          · cases h
-          · rename_i buf fw3 next heq
-            cases h
-            exact itemLoop_posLe cfg _ _ _ _ _ _ a.pos (by omega) (by intro h0; cases h0) heq
-      · split at h
-        · cases h
-        · rename_i buf fw3 next heq
-          cases h
-          exact itemLoop_posLe cfg _ _ _ _ _ _ a.pos (by omega) (by intro h0; cases h0) heq
-
-/-- the marker `List.read` hands to `ListItem.read` is the one `parse_marker` finds on the line -/
-theorem itemLines_marker (cfg : Cfg) (a : FW) (prev) (il : ItemLines) (h : itemLines cfg a prev = .ok il)
-    (hprev : ∀ m, prev = some m → ∃ l, a.peek = some l ∧ parseMarker l.s = some m) :
-    ∃ l m, a.peek = some l ∧ parseMarker l.s = some m ∧ itemLines cfg a (some m) = .ok il := by
-  cases prev with
-  | some m =>
-    obtain ⟨l, hl, hm⟩ := hprev m rfl
-    exact ⟨l, m, hl, hm, h⟩
-  | none =>
-    cases hp : a.peek with
-    | none => unfold itemLines at h; simp [hp] at h
-    | some l =>
-      cases hm : parseMarker l.s with
-      | none => unfold itemLines at h; simp [hp, hm] at h
-      | some m =>
-        refine ⟨l, m, rfl, hm, ?_⟩
-        rw [← h]
-        unfold itemLines
-        simp only [hp, hm]
+theorem itemLines_cursor_fw (il : ItemLines) : il.cursor = il.fw := by cases il <;> rfl
 
 /-! ### `List.read` on the extended buffer -/
 
-/-- how `List.read` may have looked at the end of the buffer: its last item did (no line that is not
-    whitespace-only remains at or after the cursor it returned), or an item it discarded did (the
-    cursor is back on that item's marker line) -/
-def ListTouch (cfg : Cfg) (fw' : FW) : Prop :=
-  ¬ fw'.NBl ∨ ∃ l m il, fw'.peek = some l ∧ parseMarker l.s = some m ∧ itemLines cfg fw' (some m) = .ok il ∧
-    il.next = none ∧ ¬ il.cursor.NBl
-
+/-- `List.read` runs identically on the extended buffer, unless its last item looked at the end of
+    the buffer: then no line that is not whitespace-only remains at or after the cursor it returned -/
 def ExtList (cfg : Cfg) (nl0 : Line) (rest : List Line) (g : Nat) : Prop :=
   ∀ (a : FW) (st : St) (ld) (nm) (acc : List Item) (items) (fw' : FW) (st' : St), AllNlEnd a.lines →
-    (∀ m, nm = some m → ∃ l, a.peek = some l ∧ parseMarker l.s = some m) →
     readList cfg g a st ld nm acc = .ok (items, fw', st') →
-    readList cfg g (a.ext (nl0 :: rest)) st ld nm acc = .ok (items, fw'.ext (nl0 :: rest), st') ∨ ListTouch cfg fw'
+    readList cfg g (a.ext (nl0 :: rest)) st ld nm acc = .ok (items, fw'.ext (nl0 :: rest), st') ∨ ¬ fw'.NBl
 
 theorem extList_step (cfg : Cfg) (nl0 : Line) (rest : List Line) (hnl0 : nl0.s = ['\n']) (g : Nat)
     (hL : ExtList cfg nl0 rest g) : ExtList cfg nl0 rest (g + 1) := by
-  intro a st ld nm acc items fw' st' hnlA hnm h
-  simp only [readList, ext_pos] at h ⊢
+  intro a st ld nm acc items fw' st' hnlA h
+  simp only [readList] at h ⊢
+  by_cases hom : otherMarkerType ld nm = true
+  · -- a marker of another type: nothing is read
+    simp only [hom, ↓reduceIte] at h ⊢
+    cases h; exact Or.inl rfl
+  simp only [hom, Bool.false_eq_true, ↓reduceIte] at h ⊢
   cases hil : itemLines cfg a nm with
   | err e => simp [hil] at h
   | ok il =>
     have hsame := itemLines_same cfg a nm il hil
     have hnlC : AllNlEnd il.cursor.lines := by rw [hsame.1]; exact hnlA
-    have hnext := itemLines_next cfg a nm il hil
     simp only [hil] at h
     by_cases hg : il.next ≠ none ∨ il.cursor.NBl
     · rw [itemLines_ext cfg nl0 rest hnl0 a nm il hnlA hil hg]
@@ -482,30 +408,20 @@ theorem extList_step (cfg : Cfg) (nl0 : Line) (rest : List Line) (hnl0 : nl0.s =
       | empty ind p ldr ln og next fwc =>
         simp only [ItemLines.ext] at h ⊢
         simp only [ItemLines.cursor] at hnlC
-        simp only [ItemLines.next, ItemLines.cursor] at hnext
         cases ld with
         | some d =>
           simp only at h ⊢
-          split
-          · rename_i hc; simp only [hc, if_true] at h; cases h; exact Or.inl rfl
-          · rename_i hc
-            simp only [hc] at h
-            cases next with
-            | none => simp only at h ⊢; cases h; exact Or.inl rfl
-            | some m =>
-              simp only at h ⊢
-              exact hL fwc _ _ _ _ _ _ _ hnlC (by intro m' hm'; cases hm'; exact hnext m rfl) h
+          cases next with
+          | none => simp only at h ⊢; cases h; exact Or.inl rfl
+          | some m => simp only at h ⊢; exact hL fwc _ _ _ _ _ _ _ hnlC h
         | none =>
           simp only at h ⊢
           cases next with
           | none => simp only at h ⊢; cases h; exact Or.inl rfl
-          | some m =>
-            simp only at h ⊢
-            exact hL fwc _ _ _ _ _ _ _ hnlC (by intro m' hm'; cases hm'; exact hnext m rfl) h
+          | some m => simp only at h ⊢; exact hL fwc _ _ _ _ _ _ _ hnlC h
       | lines buf cs ind p ldr ln og next fwc =>
         simp only [ItemLines.ext] at h ⊢
         simp only [ItemLines.cursor] at hnlC
-        simp only [ItemLines.next, ItemLines.cursor] at hnext
         cases hb : tokenizeBlock cfg g buf cs st with
         | err e => simp [hb] at h
         | ok bb =>
@@ -514,62 +430,716 @@ theorem extList_step (cfg : Cfg) (nl0 : Line) (rest : List Line) (hnl0 : nl0.s =
           cases ld with
           | some d =>
             simp only at h ⊢
-            split
-            · rename_i hc; simp only [hc, if_true] at h; cases h; exact Or.inl rfl
-            · rename_i hc
-              simp only [hc] at h
-              cases next with
-              | none => simp only at h ⊢; cases h; exact Or.inl rfl
-              | some m =>
-                simp only at h ⊢
-                exact hL fwc _ _ _ _ _ _ _ hnlC (by intro m' hm'; cases hm'; exact hnext m rfl) h
+            cases next with
+            | none => simp only at h ⊢; cases h; exact Or.inl rfl
+            | some m => simp only at h ⊢; exact hL fwc _ _ _ _ _ _ _ hnlC h
           | none =>
             simp only at h ⊢
             cases next with
             | none => simp only at h ⊢; cases h; exact Or.inl rfl
-            | some m =>
-              simp only at h ⊢
-              exact hL fwc _ _ _ _ _ _ _ hnlC (by intro m' hm'; cases hm'; exact hnext m rfl) h
+            | some m => simp only at h ⊢; exact hL fwc _ _ _ _ _ _ _ hnlC h
     · right
       have hnn : il.next = none := by
         cases hn : il.next with
         | none => rfl
         | some m => exact absurd (Or.inl (by rw [hn]; simp)) hg
       have hnb : ¬ il.cursor.NBl := fun x => hg (Or.inr x)
-      obtain ⟨l0, m0, hp0, hm0, hil0⟩ := itemLines_marker cfg a nm il hil hnm
-      have hfa : ({ lines := il.cursor.lines, pos := a.pos, start := il.cursor.start } : FW) = a := by
-        rw [hsame.1, hsame.2]
-      have hdisc : ListTouch cfg { lines := il.cursor.lines, pos := a.pos, start := il.cursor.start } := by
-        rw [hfa]; exact Or.inr ⟨l0, m0, il, hp0, hm0, hil0, hnn, hnb⟩
       cases il with
       | empty ind p ldr ln og next fwc =>
         simp only [ItemLines.next] at hnn
         subst hnn
-        simp only [ItemLines.cursor] at hnb hdisc
+        simp only [ItemLines.cursor] at hnb
         cases ld with
-        | some d =>
-          simp only at h
-          split at h
-          · cases h; exact hdisc
-          · cases h; exact Or.inl hnb
-        | none => simp only at h; cases h; exact Or.inl hnb
+        | some d => simp only at h; cases h; exact hnb
+        | none => simp only at h; cases h; exact hnb
       | lines buf cs ind p ldr ln og next fwc =>
         simp only [ItemLines.next] at hnn
         subst hnn
-        simp only [ItemLines.cursor] at hnb hdisc
+        simp only [ItemLines.cursor] at hnb
         cases hb : tokenizeBlock cfg g buf cs st with
         | err e => simp [hb] at h
         | ok bb =>
           obtain ⟨bb, stb⟩ := bb
           simp only [hb] at h
           cases ld with
-          | some d =>
-            simp only at h
-            split at h
-            · cases h; exact hdisc
-            · cases h; exact Or.inl hnb
-          | none => simp only at h; cases h; exact Or.inl hnb
+          | some d => simp only at h; cases h; exact hnb
+          | none => simp only at h; cases h; exact hnb
 
 theorem extList_all (cfg : Cfg) (nl0 : Line) (rest : List Line) (hnl0 : nl0.s = ['\n']) : ∀ g, ExtList cfg nl0 rest g
-  | 0 => by intro a st ld nm acc items fw' st' _ _ h; simp [readList] at h
+  | 0 => by intro a st ld nm acc items fw' st' _ h; simp [readList] at h
   | g + 1 => extList_step cfg nl0 rest hnl0 g (extList_all cfg nl0 rest hnl0 g)
+
+/-! ### A block of a closed kind starts on a line that is not whitespace-only -/
+
+theorem ll_span_head (p : Char → Bool) (s : Str) (h : (span p s).1 ≠ []) : ∃ c r, s = c :: r ∧ p c = true := by
+  cases s with
+  | nil => simp [span] at h
+  | cons c r =>
+    refine ⟨c, r, rfl, ?_⟩
+    cases hp : p c with
+    | true => rfl
+    | false => simp [span, hp] at h
+
+theorem ll_upTo3_mem (s : Str) (n : Nat) (r : Str) (h : upTo3Spaces s = some (n, r)) (c : Char) (hc : c ∈ r) : c ∈ s := by
+  unfold upTo3Spaces at h
+  simp only at h
+  split at h
+  · cases h
+  · cases h; exact List.mem_of_mem_drop hc
+
+theorem heading_nonblank (s : Str) (m) (h : Scan.heading s = some m) : isBlank s = false := by
+  unfold Scan.heading at h
+  cases hu : upTo3Spaces s with
+  | none => simp [hu] at h
+  | some x =>
+    obtain ⟨n, r⟩ := x
+    simp only [hu] at h
+    have hne : (span (· == '#') r).1 ≠ [] := by
+      intro e
+      rw [e] at h
+      simp at h
+    obtain ⟨c, r', hr, hc⟩ := ll_span_head _ r hne
+    simp only [beq_iff_eq] at hc
+    subst hc
+    exact ll_mem_not_blank s '#' (ll_upTo3_mem s n r hu '#' (by rw [hr]; simp)) (by decide)
+
+theorem thematicBreak_nonblank (s : Str) (h : Scan.thematicBreak s = true) : isBlank s = false := by
+  unfold Scan.thematicBreak at h
+  cases hu : upTo3Spaces s with
+  | none => simp [hu] at h
+  | some x =>
+    obtain ⟨n, r⟩ := x
+    simp only [hu] at h
+    cases r with
+    | nil => simp at h
+    | cons c r' =>
+      simp only [Bool.and_eq_true, Bool.or_eq_true, beq_iff_eq] at h
+      have hm : c ∈ s := ll_upTo3_mem s n (c :: r') hu c (by simp)
+      rcases h.1.1 with (rfl | rfl) | rfl
+      · exact ll_mem_not_blank s _ hm (by decide)
+      · exact ll_mem_not_blank s _ hm (by decide)
+      · exact ll_mem_not_blank s _ hm (by decide)
+
+theorem ll_lstripSp_suffix : ∀ (s : Str), lstripSp s <:+ s
+  | [] => List.suffix_refl _
+  | c :: rest => by
+    by_cases hc : c = ' '
+    · subst hc
+      simp only [lstripSp]
+      exact List.IsSuffix.trans (ll_lstripSp_suffix rest) (List.suffix_cons _ _)
+    · have : lstripSp (c :: rest) = c :: rest := by
+        unfold lstripSp
+        split
+        · rename_i heq; cases heq; exact absurd rfl hc
+        · rfl
+      rw [this]
+      exact List.suffix_refl _
+
+theorem quoteStart_nonblank (s : Str) (h : quoteStart s = true) : isBlank s = false := by
+  unfold quoteStart at h
+  simp only at h
+  split at h
+  · cases h
+  · have hsuf := ll_lstripSp_suffix s
+    cases hl : lstripSp s with
+    | nil => rw [hl] at h; simp [startsWith] at h
+    | cons c r =>
+      rw [hl] at h hsuf
+      simp only [startsWith, List.isPrefixOf, Bool.and_eq_true, beq_iff_eq] at h
+      have hc : c = '>' := h.1.symm
+      subst hc
+      exact ll_mem_not_blank s '>' (hsuf.subset (by simp)) (by decide)
+
+theorem contains_bar_nonblank (s : Str) (h : s.contains '|' = true) : isBlank s = false :=
+  ll_mem_not_blank s '|' (by simpa using h) (by decide)
+
+theorem tryTypes_closed_nonblank (cfg : Cfg) : ∀ (gas : Nat) (fw : FW) (st : St) (l : Line) (ts : List BTok) (e : Entry) (fw' : FW) (st' : St),
+    tryTypes cfg gas fw st l ts = .ok (some (e, fw', st')) → closedE e = true → isBlank l.s = false
+  | 0, _, _, _, _, _, _, _, h, _ => by simp [tryTypes] at h
+  | _ + 1, _, _, _, [], _, _, _, h, _ => by simp [tryTypes] at h
+  | gas + 1, fw, st, l, t :: ts, e, fw', st', h, hc => by
+    have ih := fun fw2 st2 (h2 : tryTypes cfg gas fw2 st2 l ts = .ok (some (e, fw', st'))) =>
+      tryTypes_closed_nonblank cfg gas fw2 st2 l ts e fw' st' h2 hc
+    unfold tryTypes at h
+    cases t <;> simp only at h
+    · -- htmlBlock
+      split at h
+      · cases h
+      · exact ih _ _ h
+      · cases h; cases hc
+    · -- blockCode
+      split at h
+      · cases h; cases hc
+      · exact ih _ _ h
+    · -- heading
+      split at h
+      · rename_i hh
+        unfold readHeading at hh
+        split at hh
+        · cases hh
+        · rename_i m hm; exact heading_nonblank _ m hm
+      · exact ih _ _ h
+    · -- quote
+      split at h
+      · rename_i hq; exact quoteStart_nonblank _ hq
+      · exact ih _ _ h
+    · -- codeFence
+      split at h
+      · cases h; cases hc
+      · exact ih _ _ h
+    · -- thematicBreak
+      split at h
+      · rename_i ht; exact thematicBreak_nonblank _ ht
+      · exact ih _ _ h
+    · -- list
+      split at h
+      · split at h
+        · cases h
+        · cases h; cases hc
+      · exact ih _ _ h
+    · -- table
+      split at h
+      · rename_i hp; exact contains_bar_nonblank _ hp
+      · exact ih _ _ h
+    · -- footnote
+      split at h
+      · split at h
+        · cases h
+        · split at h
+          · exact ih _ _ h
+          · cases h; cases hc
+      · exact ih _ _ h
+    · -- paragraph
+      split at h
+      · rename_i hb; simpa using hb
+      · exact ih _ _ h
+    · -- blankLine
+      split at h
+      · cases h; cases hc
+      · exact ih _ _ h
+    · -- linkRefDefBlock
+      split at h
+      · split at h
+        · cases h
+        · split at h
+          · exact ih _ _ h
+          · cases h; cases hc
+      · exact ih _ _ h
+
+/-- if the entries the loop produces from `fw` on end with a block of a closed kind, a line that is
+    not whitespace-only lies at or after `fw` -/
+theorem tokLoop_closed_nbl (cfg : Cfg) : ∀ (gas : Nat) (fw : FW) (st : St) (acc : List Entry)
+    (loose : Bool) (buf : Buf) (st' : St) (new : List Entry), AllNlEnd fw.lines →
+    tokLoop cfg gas fw st acc loose = .ok (buf, st') → buf.entries = acc.reverse ++ new → new ≠ [] →
+    (∀ e, new.getLast? = some e → closedE e = true) → fw.NBl
+  | 0, _, _, _, _, _, _, _, _, h, _, _, _ => by simp [tokLoop] at h
+  | gas + 1, fw, st, acc, loose, buf, st', new, hl, h, hn, hne, hlast => by
+    simp only [tokLoop] at h
+    cases hp : fw.peek with
+    | none =>
+      simp only [hp, Res.ok.injEq, Prod.mk.injEq] at h
+      rw [← h.1] at hn
+      simp only at hn
+      have : new = [] := by simpa using hn
+      exact absurd this hne
+    | some l =>
+      simp only [hp] at h
+      cases ht : tryTypes cfg gas fw st l cfg.types with
+      | err e => simp [ht] at h
+      | ok o =>
+        simp only [ht] at h
+        cases o with
+        | none =>
+          simp only at h
+          obtain ⟨q, l', hq, hl', hb⟩ := tokLoop_closed_nbl cfg gas fw.next st acc true buf st' new hl h hn hne hlast
+          exact ⟨q, l', Nat.le_trans (Nat.le_succ _) hq, hl', hb⟩
+        | some x =>
+          obtain ⟨en, fw1, st1⟩ := x
+          simp only at h
+          have hfwd := tryTypes_fwd cfg gas fw l cfg.types fw st en fw1 st1 hl ht (Same.refl fw) rfl hp
+          have hacc := tokLoop_acc cfg gas fw1 st1 (en :: acc) loose
+          rw [h] at hacc
+          cases hr : tokLoop cfg gas fw1 st1 [] false with
+          | err e => rw [hr] at hacc; cases hacc
+          | ok r1 =>
+            rw [hr] at hacc
+            simp only [rmap_ok, withAcc, Res.ok.injEq, Prod.mk.injEq] at hacc
+            have hent : buf.entries = (en :: acc).reverse ++ r1.1.entries := by rw [hacc.1]
+            have hnew : new = en :: r1.1.entries := by
+              have : acc.reverse ++ new = acc.reverse ++ (en :: r1.1.entries) := by
+                rw [← hn, hent]; simp
+              exact List.append_cancel_left this
+            cases hre : r1.1.entries with
+            | nil =>
+              have hcl : closedE en = true := by apply hlast; rw [hnew, hre]; rfl
+              exact ⟨fw.pos, l, Nat.le_refl _, hp, tryTypes_closed_nonblank cfg gas fw st l cfg.types en fw1 st1 ht hcl⟩
+            | cons y ys =>
+              obtain ⟨q, l', hq, hl', hb⟩ := tokLoop_closed_nbl cfg gas fw1 st1 (en :: acc) loose buf st' r1.1.entries
+                (by rw [hfwd.1.1]; exact hl) h hent (by rw [hre]; simp)
+                (by
+                  intro e he
+                  apply hlast
+                  rw [hnew, hre]
+                  rw [hre] at he
+                  rw [List.getLast?_cons_cons]; exact he)
+              have := hfwd.2 footAdv
+              exact ⟨q, l', by omega, by rw [← hfwd.1.1]; exact hl', hb⟩
+
+/-! ### The dispatcher on the extended buffer, when it returns a list -/
+
+def ExtTryL (cfg : Cfg) (nl : Line) (rest : List Line) (gas : Nat) : Prop :=
+  ∀ (a : FW) (st : St) (l : Line) (ts : List BTok) (items) (ln og : Nat) (fw' : FW) (st' : St), AllNlEnd a.lines → a.peek = some l →
+    tryTypes cfg gas a st l ts = .ok (some (.list items ln og, fw', st')) →
+    tryTypes cfg gas (a.ext (nl :: rest)) st l ts = .ok (some (.list items ln og, fw'.ext (nl :: rest), st')) ∨ ¬ fw'.NBl
+
+theorem extTryL_step (cfg : Cfg) (nl : Line) (rest : List Line) (hnl : nl.s = ['\n']) (gas : Nat)
+    (hY : ExtTryL cfg nl rest gas) : ExtTryL cfg nl rest (gas + 1) := by
+  intro a st l ts items ln og fw' st' hl hp h
+  cases ts with
+  | nil => simp [tryTypes] at h
+  | cons t ts =>
+    have ih := fun (h : tryTypes cfg gas a st l ts = .ok (some (.list items ln og, fw', st'))) => hY a st l ts items ln og fw' st' hl hp h
+    have hlt := peek_some_lt a l hp
+    have hinb : a.InB := Nat.le_of_lt hlt
+    simp only [tryTypes, ext_start, ext_pos] at h ⊢
+    cases t <;> simp only at h ⊢
+    · -- htmlBlock
+      cases hh : htmlBlockStart l.s with
+      | err e => simp [hh] at h
+      | ok o =>
+        simp only [hh] at h ⊢
+        cases o with
+        | none => exact ih h
+        | some p => simp only at h; cases h
+    · -- blockCode
+      split
+      · rename_i hb; simp only [hb, if_true] at h; cases h
+      · rename_i hb; simp only [hb] at h; exact ih h
+    · -- heading
+      rw [readHeading_ext]
+      cases hh : readHeading a l.s with
+      | none => simp only [hh] at h ⊢; exact ih h
+      | some x => simp only [hh] at h; cases h
+    · -- quote
+      split
+      · rename_i hb
+        simp only [hb, if_true] at h
+        split at h
+        · cases h
+        · split at h
+          · cases h
+          · cases h
+      · rename_i hb; simp only [hb] at h; exact ih h
+    · -- codeFence
+      cases hh : codeFenceStart l.s with
+      | none => simp only [hh] at h ⊢; exact ih h
+      | some m => simp only [hh] at h; cases h
+    · -- thematicBreak
+      split
+      · rename_i hb; simp only [hb, if_true] at h; cases h
+      · rename_i hb; simp only [hb] at h; exact ih h
+    · -- list
+      split
+      · rename_i hb
+        simp only [hb, if_true] at h
+        cases hr : readList cfg gas a st none none [] with
+        | err e => simp [hr] at h
+        | ok x =>
+          obtain ⟨its, fwl, stl⟩ := x
+          simp only [hr] at h
+          cases h
+          rcases extList_all cfg nl rest hnl gas a st none none [] items fw' st' hl hr with hx | hx
+          · left; simp only [hx]
+          · exact Or.inr hx
+      · rename_i hb; simp only [hb] at h; exact ih h
+    · -- table
+      split
+      · rename_i hb
+        simp only [hb, if_true] at h
+        have key := readTable_ext nl rest hnl a l hp
+        rw [key.1]
+        cases hh : readTable a with
+        | none => simp only [hh] at h ⊢; exact ih h
+        | some x => simp only [hh] at h; cases h
+      · rename_i hb; simp only [hb] at h; exact ih h
+    · -- footnote
+      split
+      · rename_i hb
+        simp only [hb, if_true] at h
+        rw [readFootnote_ext nl rest hnl a hinb]
+        cases hf : readFootnote a with
+        | err e => simp [hf] at h
+        | ok x =>
+          obtain ⟨ms, fwf⟩ := x
+          simp only [hf, rmap_ok] at h ⊢
+          split
+          · rename_i hm
+            simp only [hm, if_true] at h
+            have hsame := readFootnote_same a ms fwf hf
+            have hpf := footnote_restores a ms fwf l hf hm hl hp (startsWith_lstrip_nb _ hb)
+            exact hY fwf _ l ts items ln og fw' st' (by rw [hsame.1]; exact hl) hpf h
+          · rename_i hm
+            simp only [hm, Bool.false_eq_true, if_false] at h
+            cases h
+      · rename_i hb; simp only [hb] at h; exact ih h
+    · -- paragraph
+      split
+      · rename_i hb
+        simp only [hb, if_true] at h
+        split at h <;> cases h
+      · rename_i hb; simp only [hb] at h; exact ih h
+    · -- blankLine
+      split
+      · rename_i hb; simp only [hb, if_true] at h; cases h
+      · rename_i hb; simp only [hb] at h; exact ih h
+    · -- linkRefDefBlock
+      split
+      · rename_i hb
+        simp only [hb, if_true] at h
+        rw [readFootnote_ext nl rest hnl a hinb]
+        cases hf : readFootnote a with
+        | err e => simp [hf] at h
+        | ok x =>
+          obtain ⟨ms, fwf⟩ := x
+          simp only [hf, rmap_ok] at h ⊢
+          split
+          · rename_i hm
+            simp only [hm, if_true] at h
+            have hsame := readFootnote_same a ms fwf hf
+            have hpf := footnote_restores a ms fwf l hf hm hl hp (startsWith_lstrip_nb _ hb)
+            exact hY fwf _ l ts items ln og fw' st' (by rw [hsame.1]; exact hl) hpf h
+          · rename_i hm
+            simp only [hm, Bool.false_eq_true, if_false] at h
+            cases h
+      · rename_i hb; simp only [hb] at h; exact ih h
+
+theorem extTryL_all (cfg : Cfg) (nl : Line) (rest : List Line) (hnl : nl.s = ['\n']) : ∀ gas, ExtTryL cfg nl rest gas
+  | 0 => by intro a st l ts items ln og fw' st' _ _ h; simp [tryTypes] at h
+  | gas + 1 => extTryL_step cfg nl rest hnl gas (extTryL_all cfg nl rest hnl gas)
+
+/-! ### (P) the dispatch loop on the extended buffer, lists included -/
+
+theorem noList_false_list (e : Entry) (h : noList e = false) : ∃ items ln og, e = .list items ln og := by
+  cases e <;> first | exact ⟨_, _, _, rfl⟩ | (simp [noList] at h)
+
+theorem closedE_list (items : List Item) (ln og : Nat) : closedE (.list items ln og) = false := rfl
+
+theorem tokLoop_ext_lists (cfg : Cfg) (nl : Line) (rest : List Line) (hnl : nl.s = ['\n']) (hbl : .blankLine ∉ cfg.types)
+    (extra : Nat) (hex : cfg.types.length < extra) :
+    ∀ (gas : Nat) (a : FW) (st : St) (acc : List Entry) (loose : Bool) (buf : Buf) (st' : St) (new : List Entry),
+      a.InB → AllNlEnd a.lines → tokLoop cfg gas a st acc loose = .ok (buf, st') →
+      buf.entries = acc.reverse ++ new → (∀ e, new.getLast? = some e → closedE e = true) →
+      ∃ g', extra ≤ g' ∧
+        tokLoop cfg (gas + extra) (a.ext (nl :: rest)) st acc loose =
+          tokLoop cfg g' { lines := a.lines ++ nl :: rest, pos := a.lines.length + 1, start := a.start } st'
+            buf.entries.reverse true
+  | 0, _, _, _, _, _, _, _, _, _, h, _, _ => by simp [tokLoop] at h
+  | gas + 1, a, st, acc, loose, buf, st', new, hb, hl, h, hn, hlast => by
+    have e : gas + 1 + extra = (gas + extra) + 1 := by omega
+    rw [e]
+    simp only [tokLoop] at h ⊢
+    cases hp : a.peek with
+    | none =>
+      simp only [hp, Res.ok.injEq, Prod.mk.injEq] at h
+      obtain ⟨h1, h2⟩ := h
+      subst h2
+      rw [← h1]
+      simp only [ext_peek_none nl rest a hp hb,
+        tryTypes_nl_none cfg _ st nl hnl cfg.types (gas + extra) hbl (by omega), List.reverse_reverse]
+      refine ⟨gas + extra, by omega, ?_⟩
+      have hpos : a.pos = a.lines.length := by
+        have := peek_none_ge a hp
+        unfold FW.InB at hb; omega
+      simp only [FW.next, FW.ext, hpos]
+    | some l =>
+      simp only [hp] at h
+      simp only [ext_peek_some _ a l hp]
+      cases ht : tryTypes cfg gas a st l cfg.types with
+      | err e => simp [ht] at h
+      | ok o =>
+        have hm := tryTypes_mono cfg a st l cfg.types o gas (gas + extra) (by omega) ht
+        simp only [ht] at h
+        cases o with
+        | none =>
+          have key := extTry2_all cfg nl rest hnl (gas + extra) a st l cfg.types none hl hp hm trivial
+          simp only [key.1, Option.map_none]
+          simp only at h
+          exact tokLoop_ext_lists cfg nl rest hnl hbl extra hex gas a.next st acc true buf st' new (next_inb a l hp) hl h hn hlast
+        | some x =>
+          obtain ⟨en, fw', st1⟩ := x
+          simp only at h
+          -- the entries produced after `en`
+          have hacc := tokLoop_acc cfg gas fw' st1 (en :: acc) loose
+          rw [h] at hacc
+          cases hr : tokLoop cfg gas fw' st1 [] false with
+          | err e => rw [hr] at hacc; cases hacc
+          | ok r1 =>
+            rw [hr] at hacc
+            simp only [rmap_ok, withAcc, Res.ok.injEq, Prod.mk.injEq] at hacc
+            have hent : buf.entries = (en :: acc).reverse ++ r1.1.entries := by rw [hacc.1]
+            have hnew : new = en :: r1.1.entries := by
+              have : acc.reverse ++ new = acc.reverse ++ (en :: r1.1.entries) := by
+                rw [← hn, hent]; simp
+              exact List.append_cancel_left this
+            have hsame := (same_all cfg gas).1 a st l cfg.types _ ht
+            have hl' : AllNlEnd fw'.lines := by rw [hsame.1]; exact hl
+            have hlast' : ∀ e, r1.1.entries.getLast? = some e → closedE e = true := by
+              intro e he
+              apply hlast
+              rw [hnew]
+              cases hre : r1.1.entries with
+              | nil => rw [hre] at he; cases he
+              | cons y ys => rw [hre] at he; rw [List.getLast?_cons_cons]; exact he
+            -- the step on the extended buffer
+            have hstep : tryTypes cfg (gas + extra) (a.ext (nl :: rest)) st l cfg.types =
+                .ok (some (en, fw'.ext (nl :: rest), st1)) ∧ fw'.InB := by
+              cases hnl' : noList en with
+              | true =>
+                have hok : okR (some (en, fw', st1)) := by
+                  refine ⟨hnl', ?_⟩
+                  cases hre : r1.1.entries with
+                  | nil => left; apply hlast; rw [hnew, hre]; rfl
+                  | cons y ys =>
+                    right
+                    exact tokLoop_new_nb cfg hbl gas fw' st1 (en :: acc) loose buf st' r1.1.entries h hent (by rw [hre]; simp)
+                have key := extTry2_all cfg nl rest hnl (gas + extra) a st l cfg.types (some (en, fw', st1)) hl hp hm hok
+                exact ⟨by simp only [key.1, Option.map_some, extT], (key.2 _ rfl).1⟩
+              | false =>
+                obtain ⟨items, ln, og, rfl⟩ := noList_false_list en hnl'
+                -- a list is not closed, so blocks follow it, the last of them closed
+                have hne : r1.1.entries ≠ [] := by
+                  intro hre
+                  have := hlast (.list items ln og) (by rw [hnew, hre]; rfl)
+                  rw [closedE_list] at this; cases this
+                have hnbl := tokLoop_closed_nbl cfg gas fw' st1 (.list items ln og :: acc) loose buf st' r1.1.entries hl' h hent hne hlast'
+                rcases extTryL_all cfg nl rest hnl (gas + extra) a st l cfg.types items ln og fw' st1 hl hp hm with hx | hx
+                · exact ⟨hx, Nat.le_of_lt (nbl_lt _ hnbl)⟩
+                · exact absurd hnbl hx
+            simp only [hstep.1]
+            obtain ⟨g', hg, heq⟩ := tokLoop_ext_lists cfg nl rest hnl hbl extra hex gas fw' st1 (en :: acc) loose buf st' r1.1.entries
+              hstep.2 hl' h hent hlast'
+            refine ⟨g', hg, ?_⟩
+            rw [heq]
+            have h1 : fw'.lines = a.lines := hsame.1
+            have h2 : fw'.start = a.start := hsame.2
+            rw [h1, h2]
+
+/-- **(P) Prefix independence.**  If `tokenize_block(A)` returns and the last top-level block it
+    produced is a paragraph, setext or ATX heading, thematic break, block quote or table, then on
+    `A ++ "\n" :: rest` (any `rest`) the tokenizer produces the same blocks, leaves the same state,
+    and continues, with `loose := true`, at the line after the "\n".  Lists may occur among the
+    earlier blocks of `A` (and anywhere inside its blocks). -/
+theorem tokenizeBlock_prefix_lists (cfg : Cfg) (hbl : .blankLine ∉ cfg.types) (A : List Line) (nl : Line) (hnl : nl.s = ['\n'])
+    (rest : List Line) (start : Nat) (st : St) (gas : Nat) (bA : Buf) (stA : St)
+    (hA : tokenizeBlock cfg gas A start st = .ok (bA, stA)) (hlast : lastClosed bA.entries)
+    (hnlA : AllNlEnd A) (extra : Nat) (hex : cfg.types.length < extra) :
+    ∃ g', extra ≤ g' ∧
+      tokenizeBlock cfg (gas + extra) (A ++ nl :: rest) start st =
+        tokLoop cfg g' { lines := A ++ nl :: rest, pos := A.length + 1, start := start } stA bA.entries.reverse true := by
+  cases gas with
+  | zero => simp [tokenizeBlock] at hA
+  | succ g =>
+    have e : g + 1 + extra = (g + extra) + 1 := by omega
+    rw [e]
+    simp only [tokenizeBlock] at hA ⊢
+    exact tokLoop_ext_lists cfg nl rest hnl hbl extra hex g { lines := A, pos := 0, start := start } st [] false bA stA
+      bA.entries (Nat.zero_le _) hnlA hA (by simp) hlast
+
+/-- **Concatenation across a blank line.**  `A`, a "\n" line and `B` tokenized as one buffer give
+    `A`'s blocks followed by `B`'s blocks, the latter with line numbers (and ghost origins) raised by
+    `A.length + 1`; `B` is read in the state `A` leaves behind. -/
+theorem tokenizeBlock_concat_lists (cfg : Cfg) (hbl : .blankLine ∉ cfg.types) (A B0 : List Line) (nl : Line) (hnl : nl.s = ['\n'])
+    (start : Nat) (st : St) (gA gB : Nat) (bA bB : Buf) (stA stB : St)
+    (hA : tokenizeBlock cfg gA A start st = .ok (bA, stA)) (hlast : lastClosed bA.entries)
+    (hB : tokenizeBlock cfg gB B0 start stA = .ok (bB, stB)) (hnlA : AllNlEnd A) (hnlB : AllNlEnd B0) :
+    tokenizeBlock cfg (gA + (gB + cfg.types.length + 1)) (A ++ nl :: B0.map (Line.sh (A.length + 1))) start st =
+      .ok ({ entries := bA.entries ++ shiftEntries (A.length + 1) bB.entries, loose := true }, stB) := by
+  obtain ⟨g', hg, heq⟩ := tokenizeBlock_prefix_lists cfg hbl A nl hnl (B0.map (Line.sh (A.length + 1))) start st gA bA stA hA hlast hnlA
+    (gB + cfg.types.length + 1) (by omega)
+  rw [heq]
+  have h1 : A ++ nl :: B0.map (Line.sh (A.length + 1)) = (A ++ [nl]) ++ B0.map (Line.sh (A ++ [nl]).length) := by simp
+  have h2 : A.length + 1 = (A ++ [nl]).length := by simp
+  rw [h1, h2, tokLoop_suffix_shift cfg g' (A ++ [nl]) B0 start stA _ true hnlB,
+    tokenizeBlock_mono cfg B0 start stA (bB, stB) gB (g' + 1) (by omega) hB]
+  simp [withAcc, shB]
+
+end Mistletoe.Block
+
+/-! ### C05 at full strength -/
+
+namespace Mistletoe.Props.C05
+open Mistletoe Mistletoe.Py Mistletoe.Scan Mistletoe.Block
+
+/-- **Prefix independence.**  Let `tokenize_block(A)` return the buffer `bA` and the state `stA`, the
+    last of `bA`'s top-level entries being a paragraph, setext/ATX heading, thematic break, block quote
+    or table (`lastClosed`), A's lines ending with their only newline, and `BlankLine` not among the
+    token types.  Then for ANY lines `rest`, the tokenizer on `A ++ "\n" :: rest` is, after some steps,
+    the dispatch loop standing on the line after the "\n" with exactly A's entries accumulated, A's
+    final state, and `loose = true` (with at least `extra` gas left, for any `extra` exceeding the
+    number of token types).  No restriction on lists: they may be among A's earlier blocks. -/
+theorem C05_prefix (cfg : Cfg) (hbl : .blankLine ∉ cfg.types) (A : List Line) (nl : Line) (hnl : nl.s = ['\n'])
+    (rest : List Line) (start : Nat) (st : St) (gas : Nat) (bA : Buf) (stA : St)
+    (hA : tokenizeBlock cfg gas A start st = .ok (bA, stA)) (hlast : lastClosed bA.entries)
+    (hnlA : AllNlEnd A) (extra : Nat) (hex : cfg.types.length < extra) :
+    ∃ g', extra ≤ g' ∧
+      tokenizeBlock cfg (gas + extra) (A ++ nl :: rest) start st =
+        tokLoop cfg g' { lines := A ++ nl :: rest, pos := A.length + 1, start := start } stA bA.entries.reverse true :=
+  tokenizeBlock_prefix_lists cfg hbl A nl hnl rest start st gas bA stA hA hlast hnlA extra hex
+
+/-- **Blocks separated by a blank line are independent, B read in A's final state.**
+    If the block phase on `A` returns `bA`/`stA` with the last entry a paragraph, setext/ATX heading,
+    thematic break, block quote or table, and the block phase on `B`, started in the state `stA`, returns
+    `bB`/`stB`, then the block phase on `A ++ ["\n"] ++ B` returns `bA`'s entries followed by `bB`'s
+    entries with every line number raised by `A.length + 1`, `loose = true`, state `stB`. -/
+theorem C05_blank_line_independent_state_full (cfg : Cfg) (hbl : .blankLine ∉ cfg.types) (A B : List Str) (gA gB : Nat)
+    (bA bB : Buf) (stA stB : St)
+    (hA : blockPhase cfg gA A = .ok (bA, stA)) (hlast : lastClosed bA.entries)
+    (hB : tokenizeBlock cfg gB (numbered 0 B) 1 stA = .ok (bB, stB))
+    (hnlA : ∀ s ∈ A, NlEnd s) (hnlB : ∀ s ∈ B, NlEnd s) :
+    blockPhase cfg (gA + (gB + cfg.types.length + 1)) (A ++ [['\n']] ++ B) =
+      .ok ({ entries := bA.entries ++ shiftEntries (A.length + 1) bB.entries, loose := true }, stB) := by
+  rw [blockPhase_eq] at hA ⊢
+  have hl : numbered 0 (A ++ [['\n']] ++ B) =
+      numbered 0 A ++ { s := ['\n'], origin := A.length + 1 } :: (numbered 0 B).map (Line.sh ((numbered 0 A).length + 1)) := by
+    rw [List.append_assoc, numbered_append, List.singleton_append, numbered_cons, numbered_length]
+    have := numbered_sh B 0 (A.length + 1)
+    simp only [Nat.zero_add] at this ⊢
+    rw [this]
+  rw [hl]
+  have := tokenizeBlock_concat_lists cfg hbl (numbered 0 A) (numbered 0 B) { s := ['\n'], origin := A.length + 1 } rfl 1 {}
+    gA gB bA bB stA stB hA hlast hB (numbered_nlEnd 0 A hnlA) (numbered_nlEnd 0 B hnlB)
+  rw [numbered_length] at this ⊢
+  exact this
+
+/-- **C05. Blocks separated by a blank line are independent.**  If `A` ends in a closed block
+    (paragraph, setext/ATX heading, thematic break, block quote or table) and defines no link
+    reference (`stA.defs = []`), then the block phase on `A ++ ["\n"] ++ B` returns `A`'s entries
+    followed by `B`'s entries with every line number (at every depth) raised by `A.length + 1`, and
+    the state `B` alone leaves.  (`B` may define link references; they end up in `stB`.) -/
+theorem C05_blank_line_independent_full (cfg : Cfg) (hbl : .blankLine ∉ cfg.types) (A B : List Str) (gA gB : Nat)
+    (bA bB : Buf) (stA stB : St)
+    (hA : blockPhase cfg gA A = .ok (bA, stA)) (hlast : lastClosed bA.entries)
+    (hdef : stA.defs = [])
+    (hB : blockPhase cfg gB B = .ok (bB, stB))
+    (hnlA : ∀ s ∈ A, NlEnd s) (hnlB : ∀ s ∈ B, NlEnd s) :
+    blockPhase cfg (gA + (gB + cfg.types.length + 1)) (A ++ [['\n']] ++ B) =
+      .ok ({ entries := bA.entries ++ shiftEntries (A.length + 1) bB.entries, loose := true }, stB) := by
+  have hsx : stA.setext = true := (sx_all cfg gA).1 _ _ _ _ rfl hA
+  have hst : stA = {} := by
+    cases stA
+    simp only at hsx hdef
+    subst hsx; subst hdef; rfl
+  subst hst
+  exact C05_blank_line_independent_state_full cfg hbl A B gA gB bA bB _ stB hA hlast hB hnlA hnlB
+
+/-! ### Non-vacuity -/
+
+/-- A = a tight two-item list, then (after a blank line) a paragraph -/
+def listA : List Str := [L "- a\n", L "- b\n", L "\n", L "para\n"]
+/-- A = a list with a nested list, a list of another marker type, an ordered list, then a quote -/
+def listA2 : List Str := [L "- a\n", L "  - n\n", L "* b\n", L "1. c\n", L "\n", L "> q\n"]
+def listB : List Str := [L "- x\n"]
+
+example : digestR (blockPhase cfg0 40 listA) = some ([(5, 1, 1), (13, 1, 1), (9, 1, 1), (13, 2, 2), (9, 2, 2), (9, 4, 4)], true, 0) := by
+  decide +kernel
+example : digestR (blockPhase cfg0 40 listB) = some ([(5, 1, 1), (13, 1, 1), (9, 1, 1)], false, 0) := by decide +kernel
+example : digestR (blockPhase cfg0 91 (listA ++ [['\n']] ++ listB)) =
+    some ([(5, 1, 1), (13, 1, 1), (9, 1, 1), (13, 2, 2), (9, 2, 2), (9, 4, 4), (5, 6, 6), (13, 6, 6), (9, 6, 6)], true, 0) := by
+  decide +kernel
+
+def okClosedL : Res (Buf × St) → Bool
+  | .ok (b, st) => (match b.entries.getLast? with | some e => closedE e | none => true) && st.defs.isEmpty &&
+      b.entries.any (fun e => !noList e)
+  | .err _ => false
+
+theorem okClosedL_spec (b : Buf) (st : St) (h : okClosedL (.ok (b, st)) = true) :
+    lastClosed b.entries ∧ st.defs = [] ∧ ∃ e ∈ b.entries, noList e = false := by
+  simp only [okClosedL, Bool.and_eq_true, List.isEmpty_iff, List.any_eq_true, Bool.not_eq_true'] at h
+  refine ⟨?_, h.1.2, h.2⟩
+  intro e he
+  have := h.1.1
+  rw [he] at this
+  exact this
+
+/-- instance of `C05_blank_line_independent_full` with a list among A's blocks (which the `_partial`
+    theorem of `Props/C05.lean` excludes): its hypotheses hold for `A`, `listB` (kernel-evaluated) -/
+theorem C05_full_instance (A : List Str) (hcA : okClosedL (blockPhase cfg0 40 A) = true)
+    (hnA : ∀ s ∈ A, NlEnd s) :
+    ∃ bA bB stB, blockPhase cfg0 40 A = .ok (bA, {}) ∧ (∃ e ∈ bA.entries, noList e = false) ∧
+      blockPhase cfg0 40 listB = .ok (bB, stB) ∧
+      blockPhase cfg0 91 (A ++ [['\n']] ++ listB) =
+        .ok ({ entries := bA.entries ++ shiftEntries (A.length + 1) bB.entries, loose := true }, stB) := by
+  have hlB : (digestR (blockPhase cfg0 40 listB)).map (·.1.length) = some 3 := by decide +kernel
+  have hnB : ∀ s ∈ listB, NlEnd s := by
+    intro s hs; apply nlEnd_of_check; revert s; decide
+  cases hA : blockPhase cfg0 40 A with
+  | err e => rw [hA] at hcA; cases hcA
+  | ok rA =>
+    obtain ⟨bA, stA⟩ := rA
+    cases hB : blockPhase cfg0 40 listB with
+    | err e => rw [hB] at hlB; cases hlB
+    | ok rB =>
+      obtain ⟨bB, stB⟩ := rB
+      rw [hA] at hcA
+      obtain ⟨hlast, hdef, hlist⟩ := okClosedL_spec bA stA hcA
+      have hsx : stA.setext = true := (sx_all cfg0 40).1 _ _ _ _ rfl hA
+      have hst : stA = {} := by
+        cases stA
+        simp only at hsx hdef
+        subst hsx; subst hdef; rfl
+      subst hst
+      exact ⟨bA, bB, stB, rfl, hlist, rfl,
+        C05_blank_line_independent_full cfg0 (by decide) A listB 40 40 bA bB _ stB hA hlast rfl hB hnA hnB⟩
+
+example := C05_full_instance listA (by decide +kernel) (by intro s hs; apply nlEnd_of_check; revert s; decide)
+example := C05_full_instance listA2 (by decide +kernel) (by intro s hs; apply nlEnd_of_check; revert s; decide)
+
+/-- instance of `C05_prefix`: whatever follows the blank line after `listA2` -/
+example (rest : List Line) : ∃ bA stA g', 30 ≤ g' ∧ tokenizeBlock cfg0 40 (numbered 0 listA2) 1 {} = .ok (bA, stA) ∧
+    tokenizeBlock cfg0 70 (numbered 0 listA2 ++ { s := ['\n'], origin := 7 } :: rest) 1 {} =
+      tokLoop cfg0 g' { lines := numbered 0 listA2 ++ { s := ['\n'], origin := 7 } :: rest, pos := 7, start := 1 } stA
+        bA.entries.reverse true := by
+  have hcA : okClosedL (blockPhase cfg0 40 listA2) = true := by decide +kernel
+  cases hA : blockPhase cfg0 40 listA2 with
+  | err e => rw [hA] at hcA; cases hcA
+  | ok rA =>
+    obtain ⟨bA, stA⟩ := rA
+    rw [hA] at hcA
+    obtain ⟨hlast, _, _⟩ := okClosedL_spec bA stA hcA
+    obtain ⟨g', hg, heq⟩ := C05_prefix cfg0 (by decide) (numbered 0 listA2) { s := ['\n'], origin := 7 } rfl rest 1 {} 40
+      bA stA hA hlast (numbered_nlEnd 0 listA2 (by intro s hs; apply nlEnd_of_check; revert s; decide)) 30 (by decide)
+    exact ⟨bA, stA, g', hg, hA, heq⟩
+
+/-! ### The inputs on which the former `List.read` violated C05
+
+  Before the repair, `List.read` read the item behind a marker of another type and discarded it
+  (`lines.set_pos(anchor)`), keeping the link reference definitions `Footnote.read` had registered
+  while the item's content was tokenized.  In `formerA1` the discarded item starts at "* * *" (after an
+  empty item the next marker is taken without the interrupt test) and runs lazily to the end of A — and,
+  in the joined document, on through the blank line into B, where `[foo]: /url` (indented code when B
+  stands alone) is a definition three list levels deep.  With the former code the joined document had
+  `footnotes == {'foo': ('/url', '')}` and A's paragraph contained a Link, although neither part
+  defines a link reference; `formerA2` does the same through `ListItem.pattern`'s `\s+` (a form feed
+  after the marker; `List.pattern` wants `[ \t]+`, so the dispatcher reads a paragraph there).
+  Now the last component (number of definitions registered) is 0 and the theorem applies. -/
+
+def formerA1 : List Str := [L "- \n", L "\n", L "* * *\n", L "para [foo]\n"]
+def formerB1 : List Str := [L "      [foo]: /url\n"]
+def formerA2 : List Str := [L "- a\n", L "*\x0cx [foo]\n"]
+def formerB2 : List Str := [L "    [foo]: /url\n"]
+
+theorem former_counterexample_1 :
+    digestR (blockPhase cfg0 40 formerA1) = some ([(5, 1, 1), (13, 1, 1), (4, 3, 3), (9, 4, 4)], false, 0) ∧
+    digestR (blockPhase cfg0 40 formerB1) = some ([(0, 1, 1)], false, 0) ∧
+    digestR (blockPhase cfg0 91 (formerA1 ++ [['\n']] ++ formerB1)) =
+      some ([(5, 1, 1), (13, 1, 1), (4, 3, 3), (9, 4, 4), (0, 6, 6)], true, 0) := by
+  refine ⟨?_, ?_, ?_⟩ <;> decide +kernel
+
+theorem former_counterexample_2 :
+    digestR (blockPhase cfg0 40 formerA2) = some ([(5, 1, 1), (13, 1, 1), (9, 1, 1), (9, 2, 2)], false, 0) ∧
+    digestR (blockPhase cfg0 40 formerB2) = some ([(0, 1, 1)], false, 0) ∧
+    digestR (blockPhase cfg0 91 (formerA2 ++ [['\n']] ++ formerB2)) =
+      some ([(5, 1, 1), (13, 1, 1), (9, 1, 1), (9, 2, 2), (0, 4, 4)], true, 0) := by
+  refine ⟨?_, ?_, ?_⟩ <;> decide +kernel
+
+end Mistletoe.Props.C05
